@@ -19,7 +19,8 @@ Definition dispatch_ok (h : header) (d : dispatch) : Prop :=
 Local Opaque N.add.
 Lemma pass_to_handler_ok : forall aw h e bs r aw',
   pass_to_handler maxbuf cfg aw h e bs = (r, aw') ->
-  match r with PthOk d _ => dispatch_ok h d | PthErr d => dispatch_ok h d /\ d_reply d = None end.
+  match r with PthOk d _ => dispatch_ok h d
+             | PthErr d => dispatch_ok h d /\ (d_reply d = None \/ d_reply d = Some RTruncated) end.
 Proof.
   intros aw h e bs r aw'. unfold pass_to_handler.
   destruct (split_at (h_len h) bs) as [pl rest] eqn:Hs.
@@ -27,7 +28,7 @@ Proof.
     destruct (pick_handler cfg (h_typ h)) as [w|] eqn:Hp;
     destruct (N.ltb_spec maxbuf (h_len h)); destruct (N.eqb_spec (len pl) (h_len h));
     intro Heq; inversion Heq; subst; clear Heq; unfold dispatch_ok, HeaderSz; cbn [d_hdr d_alloc d_reply];
-    try (split; [|reflexivity]);
+    try (split; [|auto; fail]);
     repeat split; try discriminate; try lia; intros; try discriminate;
     try (match goal with Hs : Some _ = Some _ |- _ => inversion Hs; subst end); try lia; auto.
 Qed.
@@ -37,7 +38,7 @@ Local Transparent N.add.
 Lemma read_iter_ok : forall st e bs,
   match read_iter maxbuf cfg st e bs with
   | ItNext d _ _ => exists h, dispatch_ok h d
-  | ItLast d => exists h, dispatch_ok h d /\ d_reply d = None
+  | ItLast d => exists h, dispatch_ok h d /\ (d_reply d = None \/ d_reply d = Some RTruncated)
   | ItEnd _ _ => True
   end.
 Proof.
